@@ -391,6 +391,11 @@ func genTable(r *simrt.RNG, used map[string]bool, srs gpkgh.SRS, t tms20.TileMat
 		otherGeom = w.Source.Tables[r.Intn(len(w.Source.Tables))].GeomCol
 	}
 	pk := gpkgh.Column{Name: ident(r, cused), Type: "INTEGER", PK: true, NotNull: r.Chance(0.5), AutoInc: r.Chance(0.4)}
+	if r.Chance(0.08) {
+		// INT PRIMARY KEY is an ordinary unique column, not an alias of the rowid: the rows keep
+		// the order in which they were inserted, whatever their keys (shuffled below)
+		pk.Type, pk.AutoInc = "INT", false
+	}
 	var attrs []gpkgh.Column
 	nattr := r.Intn(5)
 	if r.Chance(0.03) {
@@ -569,6 +574,24 @@ func genTable(r *simrt.RNG, used map[string]bool, srs gpkgh.SRS, t tms20.TileMat
 			}
 		}
 		tb.Rows = append(tb.Rows, row)
+	}
+	// INT PRIMARY KEY: keys in no particular order
+	k := 0
+	for _, col := range tb.Columns {
+		if col.Name == tb.GeomCol {
+			continue
+		}
+		if col.PK && col.Type == "INT" && len(tb.Rows) > 1 {
+			perm := r.Perm(len(tb.Rows))
+			vals := make([]gpkgh.Val, len(tb.Rows))
+			for i := range tb.Rows {
+				vals[i] = tb.Rows[perm[i]].Vals[k]
+			}
+			for i := range tb.Rows {
+				tb.Rows[i].Vals[k] = vals[i]
+			}
+		}
+		k++
 	}
 	return tb
 }
